@@ -152,9 +152,25 @@ def d2_taint(repo, rep):
                               % (th[0], th[1], thr_c[0], thr_c[1]))
         if thr_c == (1972, 1) and thr_g == {(1972, 1)}:
             rep.ok("R-INV-GUARD", "Epoch.Epoch.get_date", "both directions switch on at 1972-01 (%d predicate(s))" % len(preds))
-    # lookup in get_date uses the civil year/month it just computed (not a shifted value): args are the returned year/month
-    for c in find_calls(t2, "Epoch.Epoch.leap_seconds"):
-        pass
+    # stepping back across New Year: the length of the previous year must be taken from the year the date moves into
+    kw = ("dict", ((("str", "utc"), ("bool", True)),))
+    t3 = ret_term(repo, "Epoch", "Epoch.get_date", arg_terms={"self": ("epoch", T.sym("J")), "kwargs": kw})
+    calls = find_calls(t3, "Epoch.Epoch.doy2date")
+    rep.floor("doy2date calls on the TT->UTC path", len(calls), 1)
+    for c in calls:
+        Y, D = c[2], c[3]
+        if not (Y[0] == "phi" and D[0] == "phi" and Y[1] == D[1]):
+            rep.violation("R-DEP", "Epoch.Epoch.get_date", "newyear-shape", "year and day-of-year handed to doy2date are not adjusted under one `doy < 1` test")
+            continue
+        new_year = Y[2]
+        leaps = [x for x in T.walk(D[2]) if x[0] == "call" and x[1] == "Epoch.Epoch.is_leap"]
+        if leaps and all(l[2] == new_year for l in leaps) and new_year == T.add(Y[3], T.num(-1)):
+            rep.ok("R-DEP", "Epoch.Epoch.get_date:newyear", "when the UTC date falls back into the previous year, 365/366 is chosen by is_leap(year - 1), the year handed to doy2date")
+        else:
+            rep.violation("R-DEP", "Epoch.Epoch.get_date", "newyear-leap-year",
+                          "when the TT->UTC offset moves the date back across 1 January, the length of the previous year (365/366) is taken from "
+                          "is_leap(%s) but the date is placed in year %s: wrong by a day whenever exactly one of the two years is a leap year"
+                          % (T.show(leaps[0][2])[:40] if leaps else "?", "year - 1" if new_year == T.add(Y[3], T.num(-1)) else T.show(new_year)[:40]))
 
 
 def offset_phis(t):
